@@ -1329,6 +1329,140 @@ theorem mem_extLinksOf (orig q : List Ent) (hn : noBlockDataIn orig = true) (t m
     · exact mem_extLinks orig q hn t m e h
     · exact mem_extLinksOf orig q hn t m es h
 
+/-! ### `proc_internals` off: the display list plays no part -/
+
+theorem pruneKids_off_display (cfg : Cfg) (cl : PClass) (d d' : List Word) :
+    (cs : Ents) → pruneKids cfg cl true d cs = pruneKids cfg cl true d' cs
+  | .nil => by simp [pruneKids]
+  | .cons e rest => by
+    simp only [pruneKids, if_true]
+    rw [pruneKids_off_display cfg cl d d' rest]
+
+/-! ### name links of `bound_declaration` -/
+
+theorem bindLinked_page (orig q : List Ent) (b : Bool) (d : Nat) (h : bindLinked true orig q b d = true) :
+    d ∈ pageIds q ∧ d ∈ visibleIdsOf q := by
+  simp only [bindLinked, bindNameLink, Bool.and_eq_true, Bool.true_and, Bool.not_true, Bool.false_or, if_true,
+    List.contains_iff_mem] at h
+  exact ⟨h.2, h.1.2⟩
+
+theorem mem_bindLinksIn (orig q : List Ent) (t t' b d : Nat) :
+    (es : Ents) → (t', b, d) ∈ es.bindLinksIn true orig q t → d ∈ pageIds q ∧ d ∈ visibleIdsOf q
+  | .nil => by simp [Ents.bindLinksIn]
+  | .cons e rest => by
+    intro h
+    simp only [Ents.bindLinksIn, List.mem_append] at h
+    rcases h with h | h
+    · split at h
+      · split at h
+        · rename_i d' _
+          by_cases hl : bindLinked true orig q e.info.visible d' = true
+          · simp only [hl, if_true, List.mem_singleton, Prod.mk.injEq] at h
+            rw [h.2.2]; exact bindLinked_page orig q _ d' hl
+          · simp [hl] at h
+        · simp at h
+      · simp at h
+    · exact mem_bindLinksIn orig q t t' b d rest h
+
+mutual
+theorem mem_bindLinks (orig q : List Ent) (t b d : Nat) :
+    (e : Ent) → (t, b, d) ∈ e.bindLinks true orig q → d ∈ pageIds q ∧ d ∈ visibleIdsOf q
+  | .mk i cs => by
+    intro h
+    simp only [Ent.bindLinks, List.mem_append] at h
+    rcases h with h | h
+    · split at h
+      · exact mem_bindLinksIn orig q i.id t b d cs h
+      · simp at h
+    · exact mems_bindLinks orig q t b d cs h
+theorem mems_bindLinks (orig q : List Ent) (t b d : Nat) :
+    (es : Ents) → (t, b, d) ∈ es.bindLinks true orig q → d ∈ pageIds q ∧ d ∈ visibleIdsOf q
+  | .nil => by simp [Ents.bindLinks]
+  | .cons e rest => by
+    intro h
+    simp only [Ents.bindLinks, List.mem_append] at h
+    rcases h with h | h
+    · exact mem_bindLinks orig q t b d e h
+    · exact mems_bindLinks orig q t b d rest h
+end
+
+theorem mem_bindLinksOf (orig q : List Ent) (t b d : Nat) :
+    (es : List Ent) → (t, b, d) ∈ bindLinksOf true orig q es → d ∈ pageIds q ∧ d ∈ visibleIdsOf q
+  | [] => by simp [bindLinksOf]
+  | e :: es => by
+    intro h
+    simp only [bindLinksOf, List.mem_append] at h
+    rcases h with h | h
+    · exact mem_bindLinks orig q t b d e h
+    · exact mem_bindLinksOf orig q t b d es h
+
+/-! ### graph nodes -/
+
+theorem nodeUrl_page (orig q : List Ent) (i : Info) (pg : Nat) (h : nodeUrl orig q i = some pg) :
+    pg ∈ pageIds q := by
+  simp only [nodeUrl] at h
+  split at h
+  · split at h
+    · rename_i d _
+      split at h
+      · rename_i hl
+        simp only [Option.some.injEq] at h
+        simp only [nodeLinked, Bool.and_eq_true, List.contains_iff_mem] at hl
+        rw [← h]; exact hl.1.1
+      · simp at h
+    · simp at h
+  · split at h
+    · rename_i hl
+      simp only [Option.some.injEq] at h
+      simp only [nodeLinked, Bool.and_eq_true, List.contains_iff_mem] at hl
+      rw [← h]; exact hl.1.1
+    · split at h
+      · split at h
+        · split at h
+          · rename_i hl
+            simp only [Option.some.injEq] at h
+            simp only [nodeLinked, Bool.and_eq_true, List.contains_iff_mem] at hl
+            rw [← h]; exact hl.1.1
+          · simp at h
+        · simp at h
+      · simp at h
+
+mutual
+theorem mem_nodeUrls (orig q : List Ent) (x pg : Nat) :
+    (e : Ent) → (x, pg) ∈ e.nodeUrls orig q → pg ∈ pageIds q
+  | .mk i cs => by
+    intro h
+    simp only [Ent.nodeUrls, List.mem_append] at h
+    rcases h with h | h
+    · split at h
+      · split at h
+        · rename_i pg' hn
+          simp only [List.mem_singleton, Prod.mk.injEq] at h
+          rw [h.2]; exact nodeUrl_page orig q i pg' hn
+        · simp at h
+      · simp at h
+    · exact mems_nodeUrls orig q x pg cs h
+theorem mems_nodeUrls (orig q : List Ent) (x pg : Nat) :
+    (es : Ents) → (x, pg) ∈ es.nodeUrls orig q → pg ∈ pageIds q
+  | .nil => by simp [Ents.nodeUrls]
+  | .cons e rest => by
+    intro h
+    simp only [Ents.nodeUrls, List.mem_append] at h
+    rcases h with h | h
+    · exact mem_nodeUrls orig q x pg e h
+    · exact mems_nodeUrls orig q x pg rest h
+end
+
+theorem mem_nodeUrlsOf (orig q : List Ent) (x pg : Nat) :
+    (es : List Ent) → (x, pg) ∈ nodeUrlsOf orig q es → pg ∈ pageIds q
+  | [] => by simp [nodeUrlsOf]
+  | e :: es => by
+    intro h
+    simp only [nodeUrlsOf, List.mem_append] at h
+    rcases h with h | h
+    · exact mem_nodeUrls orig q x pg e h
+    · exact mem_nodeUrlsOf orig q x pg es h
+
 mutual
 theorem mem_visibleIds_ids (x : Nat) : (e : Ent) → x ∈ e.visibleIds → x ∈ e.ids
   | .mk i cs => by
